@@ -256,4 +256,84 @@ example : Rep ⟨2, [⟨List.replicate 32 1, 0, ⟨[], none⟩, 0xFFFFFFFE, ⟨[
 example : Spec.Sighash.stripCodeSep 25 (Spec.Sighash.p2pkhCode (List.replicate 20 9)) = Spec.Sighash.p2pkhCode (List.replicate 20 9) := by
   decide
 
+
+/-! ## beyond the property's quantifier: all 256 hash-type bytes, OP_CODESEPARATOR
+
+    Recorded observations, not findings (the property quantifies over the seven standard hash types and
+    standard script codes).  O05h: the library decodes the base type with `& 3`, Core with `& 0x1f`.
+    O05i: BIP341 fails for a hash type outside the seven, the library computes a digest.
+    O05j: Core's `SerializeScriptCode` drops OP_CODESEPARATOR opcodes, the library has no code-separator
+    handling at all (opcode 171 is only a name in `OP_CODE_NAMES`; there is no FindAndDelete either). -/
+
+/-- on which of the 256 hash-type bytes the library's decoding (`& 0x80`, `& 3`) is Core's (`& 0x80`, `& 0x1f`):
+    exactly the 160 bytes with `ht & 3 < 2` or `ht & 0x1f < 4` -/
+theorem hashtype_decoding_agrees_iff : ∀ ht, ht < 256 → (HtOK ht ↔ (ht % 4 < 2 ∨ ht % 32 < 4)) :=
+  htOK_byte_iff
+
+/-- legacy: the library's serialisation is Core's for EVERY hash-type byte on which the decodings agree
+    (0x00…0x05, 0x08, 0x09, …, 0x80…0x85, … — not only the seven standard ones) -/
+theorem legacy_eq_spec_all_bytes (t : Tx) (st : Spec.Sighash.Tx) (i ht : Nat) (redeem : Option Script) (codeS : Script)
+    (codeRaw : Bytes) (rep : Rep t st) (hb : ht < 256) (hag : ht % 4 < 2 ∨ ht % 32 < 4)
+    (hcode : ∀ txin, t.ins[i]? = some txin → legacyCode redeem txin = some codeS)
+    (hraw : rawSerialize codeS = some codeRaw) (hlen : codeRaw.length < 2 ^ 64)
+    (hsep : Spec.Sighash.stripCodeSep codeRaw.length codeRaw = codeRaw) :
+    sigHashLegacyPre t i redeem ht = some (legacyOfSpec (Spec.Sighash.legacy st i codeRaw ht)) :=
+  legacy_pre_spec_gen t st i ht redeem codeS codeRaw rep (htOK_byte ht hb hag) hcode hraw hlen hsep
+
+/-- BIP143: likewise -/
+theorem bip143_eq_spec_all_bytes (H : Hashes) (t : Tx) (st : Spec.Sighash.Tx) (i ht amount : Nat) (txin : TxIn)
+    (redeem ws : Option Script) (code : Script) (codeRaw : Bytes)
+    (rep : Rep t st) (hb : ht < 256) (hag : ht % 4 < 2 ∨ ht % 32 < 4)
+    (hin : t.ins[i]? = some txin) (hcode : scriptCode143 txin redeem ws = some code)
+    (hraw : rawSerialize code = some codeRaw) (hlen : codeRaw.length < 2 ^ 64)
+    (hval : txin.value = some amount) (hamt : amount < 2 ^ 64) :
+    sigHashBip143Pre Cfg.repaired H { tx := t } i redeem ws ht =
+      (Spec.Sighash.bip143 H.hash256 st i codeRaw amount ht).map fun p => (p, { tx := t }) :=
+  bip143_pre_spec_gen H t st i ht amount txin redeem ws code codeRaw rep (htOK_byte ht hb hag) hin hcode hraw hlen hval hamt
+
+/-- O05h witness: on the other 96 bytes they differ — hash type 0x06 (`& 3` = NONE, `& 0x1f` = 6 = like ALL) on a
+    1-input 1-output transaction: legacy and BIP143 preimages are not Core's -/
+theorem O05h_nonstandard_hashtype_witness :
+    ∃ (t : Tx) (st : Spec.Sighash.Tx) (code : Script) (codeRaw : Bytes), Rep t st ∧ rawSerialize code = some codeRaw ∧
+      sigHashLegacyPre t 0 (some code) 6 ≠ some (legacyOfSpec (Spec.Sighash.legacy st 0 codeRaw 6)) ∧
+      (sigHashBip143Pre Cfg.repaired ⟨id, id⟩ { tx := t } 0 none (some code) 6).map (·.1) ≠
+        Spec.Sighash.bip143 id st 0 codeRaw 1000 6 := by
+  refine ⟨⟨2, [⟨List.replicate 32 1, 0, ⟨[], none⟩, 0xFFFFFFFE, ⟨[]⟩, some 1000, none⟩], [⟨900, ⟨[.op 0x51], none⟩⟩], 0, true⟩,
+    ⟨2, [⟨⟨List.replicate 32 1, 0⟩, [], 0xFFFFFFFE⟩], [⟨900, [0x51]⟩], 0⟩, ⟨[.op 0x51], none⟩, [0x51], ?_, rfl, ?_, ?_⟩
+  · refine ⟨rfl, rfl, by decide, by decide, by decide, by decide, ?_, ?_⟩
+    · exact .cons ⟨by decide, rfl, rfl, by decide, by decide⟩ .nil
+    · exact .cons ⟨rfl, by decide, by decide, by decide⟩ .nil
+  · decide +kernel
+  · decide +kernel
+
+/-- O05i witness: BIP341 fails for hash type 0x04; the library returns a message -/
+theorem O05i_taproot_invalid_hashtype_witness :
+    ∃ (t : Tx) (st : Spec.Sighash.Tx) (spent : List Spec.Sighash.TxOut),
+      Spec.Sighash.taprootMsg id st spent 0 4 none none = none ∧
+      (sigHashBip341Pre Cfg.repaired ⟨id, id⟩ (fun _ => true) { tx := t } 0 0 4).isSome = true := by
+  refine ⟨⟨2, [⟨List.replicate 32 1, 0, ⟨[], none⟩, 0xFFFFFFFE, ⟨[[7]]⟩, some 1000, some ⟨[.op 0x51, .push (List.replicate 32 3)], none⟩⟩],
+      [⟨900, ⟨[.op 0x51], none⟩⟩], 0, true⟩,
+    ⟨2, [⟨⟨List.replicate 32 1, 0⟩, [], 0xFFFFFFFE⟩], [⟨900, [0x51]⟩], 0⟩, [⟨1000, 0x51 :: 0x20 :: List.replicate 32 3⟩], ?_, ?_⟩
+  · decide +kernel
+  · decide +kernel
+
+/-- a canonically encoded script code without the opcode OP_CODESEPARATOR satisfies the hypothesis `hsep` of
+    `legacy_eq_spec`: Core's stripping leaves it unchanged (every standard script code is of this kind) -/
+theorem no_codeseparator_no_stripping (cs : List Cmd) (b : Bytes) (wf : ∀ c ∈ cs, CmdWF c) (h : serCmds cs = some b)
+    (hno : Cmd.op 0xab ∉ cs) : Spec.Sighash.stripCodeSep b.length b = b :=
+  no_codesep_strip cs b wf h hno
+
+/-- O05j witness: for the script code `OP_CODESEPARATOR OP_1` the library hashes the opcode, Core does not -/
+theorem O05j_codeseparator_witness :
+    ∃ (t : Tx) (st : Spec.Sighash.Tx) (code : Script) (codeRaw : Bytes), Rep t st ∧ rawSerialize code = some codeRaw ∧
+      Spec.Sighash.stripCodeSep codeRaw.length codeRaw ≠ codeRaw ∧
+      sigHashLegacyPre t 0 (some code) 1 ≠ some (legacyOfSpec (Spec.Sighash.legacy st 0 codeRaw 1)) := by
+  refine ⟨⟨2, [⟨List.replicate 32 1, 0, ⟨[], none⟩, 0xFFFFFFFE, ⟨[]⟩, some 1000, none⟩], [⟨900, ⟨[.op 0x51], none⟩⟩], 0, true⟩,
+    ⟨2, [⟨⟨List.replicate 32 1, 0⟩, [], 0xFFFFFFFE⟩], [⟨900, [0x51]⟩], 0⟩, ⟨[.op 0xab, .op 0x51], none⟩, [0xab, 0x51], ?_, rfl, ?_, ?_⟩
+  · refine ⟨rfl, rfl, by decide, by decide, by decide, by decide, ?_, ?_⟩
+    · exact .cons ⟨by decide, rfl, rfl, by decide, by decide⟩ .nil
+    · exact .cons ⟨rfl, by decide, by decide, by decide⟩ .nil
+  · decide
+  · decide +kernel
+
 end Buidl.Props.C05
